@@ -21,6 +21,6 @@ for pid in sys.argv[2:]:
         shutil.copy(f'{src}/demo.py', dst)
         meta = json.load(open(f'{src}/meta.json'))
         meta['confirmed_by_me'] = {'how': 'tools/seed_confirm.sh in a scratch worktree of /repo HEAD: demo.py exits 0 on original, 1 with the patch; pytest pokerkit/tests with the patch', 'result': conf.strip().splitlines()}
-        meta['origin'] = 'round 3: independent sub-agent given the property text, its own worktree and the summaries of the four earlier changes for this property'
+        meta['origin'] = {'r3': 'round 3', 'r4': 'round 4'}.get(rnd, rnd) + ': independent sub-agent given the property text, its own worktree and the summaries of the earlier changes for this property'
         json.dump(meta, open(f'{dst}/meta.json', 'w'), indent=1)
         print('stored', dst)
